@@ -56,6 +56,7 @@ fn main() {
         "replay" => batch::cmd_replay(&m),
         "hashes" => batch::cmd_hashes(&m),
         "gen" => batch::cmd_gen(&m),
+        "hash-spec" => batch::cmd_hash_spec(&m),
         "boundary" => boundary::cmd_boundary(&m),
         "info" => {
             let c = engine::build_cfg();
